@@ -4,7 +4,7 @@ from hqrules.templates import (effect_blocks, must_pass, state_writes, variants_
                                loop_headers_containing, owner_fn, scrutinees, guard_edges, dominated_by_edges,
                                local_field_sources, binops, operand_fields, bool_uses)
 from .common import *
-from . import job_table
+from . import job_table, shared_rules
 
 EXPLANATION = ('Structural necessary conditions of C14 in State::process_task_failed / tako task_failed: the limit test is the strict '
                'comparison n_failed_tasks > max_fails evaluated after the failure was counted; on its true edge the ids returned to tako are '
@@ -21,6 +21,7 @@ def run(ctx):
     ctx.rule('R14.2', 'true edge: one non_finished_task_ids() read, taken before abort_tasks, flows into abort_tasks and into the returned vector; false edge returns an empty vector')
     ctx.rule('R14.3', 'tako task_failed hands the ids returned by on_task_error to on_cancel_tasks; the HQ callback returns what process_task_failed returned')
     ctx.rule('R14.4', 'non_finished_task_ids selects exactly {Waiting, Running}')
+    ctx.rule('R14.5', 'every failure is counted: set_failed_state increments n_failed_tasks on every path (also for a task that fails while still Waiting)')
 
     b = prog.body(PTF)
     gts = [(bi, s, op, a, c) for bi, s, op, a, c in binops(b) if op in ('Gt', 'Ge', 'Lt', 'Le')]
@@ -74,15 +75,7 @@ def run(ctx):
     ctx.ob('R14.2', 'consumers abort|param flows', bool(first) and bool(set(l for l in range(1, b.argc + 1) if b.locals[l][0].startswith('alloc::vec::Vec<tako::internal::common::ids::TaskId')) & b.derived_from(op_local(b.term[first[0]]['args'][1]))), 'the consumers handed in by tako are aborted unconditionally', b.loc(first[0]) if first else b.loc())
 
     # ---- R14.3
-    tf = prog.body(REACTOR + 'task_failed')
-    oe = effect_blocks(prog, tf, E_EV_ERROR)
-    oc = tf.call_blocks(REACTOR + 'on_cancel_tasks')
-    ctx.require(oe and oc, 'R14.3: anchors in task_failed')
-    rl = tf.term[sorted(oe)[0]]['d'][0]
-    al = op_local(tf.term[oc[0]]['args'][2])
-    ctx.ob('R14.3', 'task_failed|result -> on_cancel_tasks', rl in tf.derived_from(al), 'the ids returned by on_task_error are passed to on_cancel_tasks', tf.loc(oc[0]))
-    edges, _ = guard_edges(tf, 'alloc::vec::Vec::is_empty', False)
-    ctx.ob('R14.3', 'task_failed|cancel iff non-empty', dominated_by_edges(tf, oc[0], edges, False), 'on_cancel_tasks runs when the returned list is non-empty', tf.loc(oc[0]))
+    shared_rules.error_result_reaches_cancel(ctx, 'R14.3')
     up = prog.body('<hyperqueue::server::tako_events::UpstreamEventProcessor as tako::events::EventProcessor>::on_task_error')
     pc = up.call_blocks(PTF)
     ctx.require(pc, 'R14.3: process_task_failed not called from on_task_error')
@@ -90,6 +83,9 @@ def run(ctx):
     ret_ok = rl == 0 or any(st['k'] == 'a' and st['p'] == [0, []] and st['rv'][0] == 'use' and rl in up.derived_from(op_local(st['rv'][1]))
                             for x in up.reachable() for st in up.stmts(x) if op_local(st['rv'][1] if st['k'] == 'a' and st['rv'][0] == 'use' else None) is not None)
     ctx.ob('R14.3', 'on_task_error|returns process_task_failed result', ret_ok, 'the HQ callback returns the id list of process_task_failed to tako', up.loc(pc[0]))
+
+    # ---- R14.5
+    shared_rules.terminal_counter_on_every_path(ctx, 'R14.5', setters=('set_failed_state',)) if False else _r145(ctx)
 
     # ---- R14.4
     nfb = prog.body(JOB + 'non_finished_task_ids')
@@ -106,3 +102,21 @@ def run(ctx):
                         sel |= set(vs)
     ctx.require(found, 'R14.4: JobTaskState match not found in non_finished_task_ids')
     ctx.ob('R14.4', 'non_finished_task_ids|{Waiting,Running}', sel == {'Waiting', 'Running'}, f'non_finished_task_ids yields exactly Waiting and Running tasks (observed {sorted(sel)})', nfb.loc())
+
+
+def _r145(ctx):
+    from .job_table import counter_updates
+    prog = ctx.prog
+    b = prog.body(JOB + 'set_failed_state')
+    cu = counter_updates(b)
+    inc = [x[0] for x in cu if x[2] == 'n_failed_tasks' and x[3] == '+']
+    n = 0
+    for bi, s, v, pl in state_writes(b, JTS):
+        if v != 'Failed':
+            continue
+        n += 1
+        old = variants_at(b, JTS, bi)
+        ok, _ = must_pass(b, [bi], inc)
+        ctx.ob('R14.5', f'set_failed_state|{"+".join(sorted(old)) if old else "?"}->Failed|counted', ok or bi in inc,
+               f'a failure from state {sorted(old) if old else old} increments n_failed_tasks (launch errors and crash-limit failures fail a task that is still Waiting)', b.loc(bi, s))
+    ctx.floor('R14.5', n, 2, 'Failed writes in set_failed_state')
